@@ -41,7 +41,13 @@ func verifASCII(n int) string {
 
 // verifC38Raw builds the raw text for the chosen shape.
 func verifC38Raw(maxLen int) string {
-	switch vChoose(5) {
+	switch vChoose(6) {
+	case 5:
+		// SCP-style text with an explicit zero port: "h:0:" + free text.  The
+		// path that follows may itself look like a port specification (long digit
+		// runs included), which Format has to protect.
+		vLabel("zero-port-rest")
+		return "h:0:" + verifASCII(vRange(0, vParam("maxzeroport", 6)))
 	case 4:
 		// <the Docker scheme word as a host name>:<free text> - SCP-style SSH
 		// text whose host spells the Docker scheme
